@@ -102,6 +102,17 @@ func evalC12(c *Ctx, op string, b []byte, canonical bool) error {
 	if !(accepted && reenc) {
 		return nil
 	}
+	if op == "decode_encode" {
+		// the image lemma of Props/C12.v, measured: is the decoded message in the domain of the fixed-point theorem?
+		if dom, err := c.M.Ask("(in_domain " + m1 + ")"); err != nil {
+			return err
+		} else if dom == "1" {
+			r.Hist["decoded-and-reencodable:in-theorem-domain"]++
+		} else {
+			r.Hist["decoded-and-reencodable:OUTSIDE-theorem-domain"]++
+			r.Notes = appendOnce(r.Notes, "a decoded, re-encodable message lies outside dom_msg: "+cs)
+		}
+	}
 	if m2 != m1 {
 		r.Add(Finding{Kind: "instance", What: "decoding the re-encoding of a decoded message gives a different message (or fails)", Case: cs, Expected: m1, Observed: m2})
 	} else if b2 != b1 {
@@ -111,6 +122,16 @@ func evalC12(c *Ctx, op string, b []byte, canonical bool) error {
 		r.Add(Finding{Kind: "instance", What: "re-encoding of a canonical datagram is not byte-identical", Case: cs, Expected: hx(b), Observed: b1})
 	}
 	return nil
+}
+
+func appendOnce(l []string, s string) []string {
+	if len(l) >= 5 {
+		return l
+	}
+	if len(s) > 400 {
+		s = s[:400]
+	}
+	return append(l, s)
 }
 
 // normNext: NextPayload is bookkeeping derived from the payload chain, not a field of the message value
